@@ -2413,7 +2413,11 @@ impl LineBuf {
 				};
 				for line_no in line_range {
 					let Some((start,end)) = self.line_bounds(line_no) else { continue };
+					// A buffer that ends with a newline has no line after it
+					if line_no > 0 && start >= self.cursor.max { continue }
 					let line = self.slice(start..end).unwrap_or_default();
+					// The pattern is matched against the line, not against its terminator
+					let line = line.strip_suffix('\n').unwrap_or(line);
 
 					match motion.1 {
 						Motion::NotGlobal(_,_) => {
